@@ -13,8 +13,8 @@
   revision). `Step.compDel` is one `KB.runDelete`; `Step.write ops` is one `KB.commit` (a failed commit
   changes nothing).
 
-  Results (all for every interleaving, every failure mask without CAS errors on unconditional deletes —
-  hence every crash point —, every engine quirk set):
+  Results (all for every interleaving, EVERY failure mask — any mix of ok / error / failed-condition error
+  on plain deletes and compare-and-deletes, hence every crash point —, every engine quirk set):
     * `compDel_invisible`     one more compactor call changes no read at any R' ≥ R and no key's logical
                               index (absent / live at rev): deleted keys do not reappear, live keys do not
                               vanish, every key stays writable with normal semantics;
@@ -235,24 +235,24 @@ theorem reachable_decodes (hidx : IdxWF recs0) (R : Nat) (q : Quirks) (mask : Na
   rw [storeRecs_eq hI.2.1, decodeRecs_good hI.2.1]
 
 /-- **2. Whole run.** In the final state of any disciplined run — any interleaving of compactor calls and
-writer batches, any failure mask without CAS errors on unconditional deletes — every read at every
+writer batches, any failure mask — every read at every
 revision `R' ≥ R` equals the read of the store in which every version record of the snapshot that is
 missing (only the compactor removes versions; writers only add versions `> R`) is put back. -/
 theorem race_equals_restored (hne : ∀ r ∈ recs0, r.key ≠ []) (hidx : IdxWF recs0)
-    (R : Nat) (q : Quirks) (mask : Nat → DelOutcome) (hm : NoCasOnDel mask)
+    (R : Nat) (q : Quirks) (mask : Nat → DelOutcome)
     (steps : List Step) (hd : Disciplined q mask R (init R recs0) steps)
     (R' : Nat) (hR : R ≤ R') (k : Bytes) :
     readS R' (run q mask (init R recs0) steps).comp.store k =
       readS R' (restored recs0 (run q mask (init R recs0) steps).comp.store) k := by
   have hI := inv_reachable hs hw hk hidx R q mask steps hd
-  exact read_restored hs hw hk hne hm hI.1 hI.2.1 hI.2.2.1 hI.2.2.2 R' hR k
+  exact read_restored hs hw hk hne hI.1 hI.2.1 hI.2.2.1 hI.2.2.2 R' hR k
 
 /-- **1. One compactor call is invisible.** In every state reachable by a disciplined run, one more
 compactor call leaves every read at every revision `R' ≥ R` of every key unchanged, and leaves the logical
 index of every key (absent-or-flagged / live at `rev` — what every writer's conditional commit tests)
 unchanged. -/
 theorem compDel_invisible (hne : ∀ r ∈ recs0, r.key ≠ []) (hidx : IdxWF recs0)
-    (R : Nat) (q : Quirks) (mask : Nat → DelOutcome) (hm : NoCasOnDel mask)
+    (R : Nat) (q : Quirks) (mask : Nat → DelOutcome)
     (steps : List Step) (hd : Disciplined q mask R (init R recs0) steps) :
     let s := run q mask (init R recs0) steps
     let s' := step q mask s .compDel
@@ -263,8 +263,8 @@ theorem compDel_invisible (hne : ∀ r ∈ recs0, r.key ≠ []) (hidx : IdxWF re
   have hI' : Inv R recs0 mask s' := compDel_preserves_wf hs hw hk hidx q hI
   constructor
   · intro R' hR k
-    rw [read_restored hs hw hk hne hm hI'.1 hI'.2.1 hI'.2.2.1 hI'.2.2.2 R' hR k,
-      read_restored hs hw hk hne hm hI.1 hI.2.1 hI.2.2.1 hI.2.2.2 R' hR k]
+    rw [read_restored hs hw hk hne hI'.1 hI'.2.1 hI'.2.2.1 hI'.2.2.2 R' hR k,
+      read_restored hs hw hk hne hI.1 hI.2.1 hI.2.2.1 hI.2.2.2 R' hR k]
     show readS R' (restored recs0 (step q mask s .compDel).comp.store) k = _
     cases hp : s.pending with
     | nil => rw [step_compDel_nil hp]
@@ -441,7 +441,7 @@ interleaving:
 * the compactor made the same calls (trace) in both;
 * in the history-keeping run every snapshot version `≤ R` is still there: it is the uncompacted history. -/
 theorem race_equals_keep (hne : ∀ r ∈ recs0, r.key ≠ []) (hidx : IdxWF recs0)
-    (R : Nat) (q : Quirks) (mask : Nat → DelOutcome) (hm : NoCasOnDel mask)
+    (R : Nat) (q : Quirks) (mask : Nat → DelOutcome)
     (steps : List Step) (hd : Disciplined q mask R (init R recs0) steps) :
     let s := run q mask (init R recs0) steps
     let u := runKeep q mask (init R recs0) steps
@@ -463,7 +463,7 @@ theorem race_equals_keep (hne : ∀ r ∈ recs0, r.key ≠ []) (hidx : IdxWF rec
   refine ⟨hst, ?_, ?_, ?_, ht, hp, ?_⟩
   · intro R' hR k
     rw [hst]
-    exact read_restored hs hw hk hne hm hI.1 hI.2.1 hI.2.2.1 hI.2.2.2 R' hR k
+    exact read_restored hs hw hk hne hI.1 hI.2.1 hI.2.2.1 hI.2.2.2 R' hR k
   · intro k; exact (logicalIdx_congr (hidxeq k)).symm
   · intro ops hb
     unfold commitErrOf
@@ -501,7 +501,6 @@ theorem raceRecs_acts :
        .del (encode kb 3) kb, .del (encode kb 7) kb] := by decide
 
 def okMask : Nat → DelOutcome := fun _ => .ok
-theorem okMask_noCas : NoCasOnDel okMask := fun _ => by simp [okMask]
 
 /-- create of `kb` at revision 10: first attempt of naive.go -/
 def createOps : List BOp := [.pine (idxKey kb) (be8 10), .put (encode kb 10) [9]]
@@ -584,11 +583,44 @@ theorem runB_facts :
 example (R' : Nat) (hR : 8 ≤ R') (k : Bytes) :
     readS R' sA.comp.store k = readS R' (restored raceRecs sA.comp.store) k :=
   race_equals_restored raceRecs_hyps.1 raceRecs_hyps.2.1 raceRecs_hyps.2.2.1 raceRecs_hyps.2.2.2.1
-    raceRecs_hyps.2.2.2.2 8 .tikv okMask okMask_noCas runA runA_disciplined R' hR k
+    raceRecs_hyps.2.2.2.2 8 .tikv okMask runA runA_disciplined R' hR k
 
 example := compDel_invisible raceRecs_hyps.1 raceRecs_hyps.2.1 raceRecs_hyps.2.2.1 raceRecs_hyps.2.2.2.1
-    raceRecs_hyps.2.2.2.2 8 .tikv okMask okMask_noCas [.compDel, .compDel, .compDel, .compDel, .write createOps]
+    raceRecs_hyps.2.2.2.2 8 .tikv okMask [.compDel, .compDel, .compDel, .compDel, .write createOps]
     runB_disciplined
+
+/-! ### failed-condition errors on delete calls (no hypothesis on the mask) -/
+
+/-- the compare-and-delete of `kb`'s index record (call 1) AND the plain delete of `kb`'s version 3
+(call 2) fail with an error of the failed-condition class -/
+def casMask : Nat → DelOutcome := fun i => if i = 1 ∨ i = 2 then .failCas else .ok
+
+def sC : RState := run .tikv casMask (init 8 raceRecs) runB
+
+/-- with the flagged index record still there the writer's first attempt conflicts; it is a disciplined
+batch all the same -/
+theorem runC_disciplined : Disciplined .tikv casMask 8 (init 8 raceRecs) runB :=
+  ⟨.create kb [9] 10 (by decide), trivial⟩
+
+set_option maxRecDepth 100000 in
+/-- the failed compare-and-delete is NOT remembered (the worker goes on to `kb`'s versions); the failed plain
+delete IS: the marker above it is skipped, nothing of `kb`'s history is removed -/
+theorem runC_facts :
+    (run .tikv casMask (init 8 raceRecs) [.compDel, .compDel, .compDel]).comp.lastFailed = [] ∧
+    sC.pending = [] ∧
+    sC.comp.trace = [(false, encode ka 4), (true, idxKey kb), (false, encode kb 3)] ∧
+    sC.comp.lastFailed = kb ∧
+    sC.comp.store.get (idxKey kb) = some (be64 7 ++ [0]) ∧
+    sC.comp.store.get (encode kb 3) = some [1] ∧ sC.comp.store.get (encode kb 7) = some tombstone ∧
+    sC.comp.store.get (encode ka 4) = none ∧
+    readS 8 sC.comp.store kb = none ∧ readS (2 ^ 64 - 1) sC.comp.store kb = none ∧
+    readS 8 sC.comp.store ka = some ([3], 5) := by
+  decide
+
+example (R' : Nat) (hR : 8 ≤ R') (k : Bytes) :
+    readS R' sC.comp.store k = readS R' (restored raceRecs sC.comp.store) k :=
+  race_equals_restored raceRecs_hyps.1 raceRecs_hyps.2.1 raceRecs_hyps.2.2.1 raceRecs_hyps.2.2.2.1
+    raceRecs_hyps.2.2.2.2 8 .tikv casMask runB runC_disciplined R' hR k
 
 /-! ### what is not true -/
 
